@@ -407,6 +407,11 @@ def explore_case(
                 rep2 = concrete_run_poisoned(body, case, vals, options, reverse_ties=True)
                 if _matching(rep2, iss):
                     rep, env = rep2, "reverse-ties"
+                elif _narrow_ok(vals):
+                    # the symbolic run takes the branches for coefficient types the compiled kernels do not serve: same input as int32
+                    rep3 = concrete_run_poisoned(body, case, vals, options, narrow=True)
+                    if _matching(rep3, iss):
+                        rep, env = rep3, "int32"
         except Exception as e:
             rep = [Issue("harness-exception", iss.op, "%s: %s" % (type(e).__name__, e))]
         match = _matching(rep, iss)
@@ -415,9 +420,12 @@ def explore_case(
         rec["values"] = {a: frac_str(v) for a, v in vals.items()}
         if match:
             rec["native_detail"] = match[0].detail
-            if env:
+            if env == "reverse-ties":
                 rec["env"] = env
                 rec["detail"] += " [under a conforming numpy whose unstable argsort reverses ties]"
+            elif env:
+                rec["env"] = env
+                rec["detail"] += " [reproduces natively with int32 coefficients]"
             confirmed.append(rec)
         else:
             rec["native_issues"] = [r.to_json() for r in rep][:3]
@@ -438,12 +446,14 @@ def explore_case(
                 executed.add("%s:%s" % (fn.split("/numpoly/", 1)[1], frame.f_code.co_name))
 
     valuations = [{a: Fraction(frng.choice([-3, -2, -1, 0, 0, 1, 1, 2, 3, 5])) for a in atoms} for _ in range(2)] + witnesses
+    n_wide = len(valuations)
+    valuations = valuations + [valuations[0]]  # once more as int32 (a coefficient type outside the compiled kernels)
     for _k, vals in enumerate(valuations):
         try:
             if _k == 0:
                 sys.setprofile(_prof)  # measured list of numpoly functions this case executes
             try:
-                rep = concrete_run_poisoned(body, case, vals, options)
+                rep = concrete_run_poisoned(body, case, vals, options, narrow=_k >= n_wide)
             finally:
                 sys.setprofile(None)
         except Exception as e:
@@ -460,7 +470,9 @@ def explore_case(
             rec["signature"] = sig
             rec["values"] = {a: frac_str(v) for a, v in vals.items()}
             rec["native_detail"] = r.detail
-            rec["detail"] += " [native fidelity run]" if _k < 2 else " [native run on a solver-chosen path witness]"
+            rec["detail"] += " [native fidelity run, int32 coefficients]" if _k >= n_wide else " [native fidelity run]" if _k < 2 else " [native run on a solver-chosen path witness]"
+            if _k >= n_wide:
+                rec["env"] = "int32"
             confirmed.append(rec)
     d = {k: ENGINE.stats[k] - q0.get(k, 0) for k in ENGINE.stats}
     return {
@@ -496,9 +508,24 @@ def _matching(rep: List[Issue], iss: Issue) -> List[Issue]:
     ]
 
 
-def concrete_run_poisoned(body, case, values, options=None, reverse_ties: bool = False) -> List[Issue]:
-    import numpoly
+def _narrow_ok(values) -> bool:
+    """int32 runs only where nothing can overflow: integer values of magnitude <= 10."""
+    try:
+        return all(Fraction(v).denominator == 1 and abs(Fraction(v)) <= 10 for v in values.values())
+    except Exception:
+        return False
 
+
+def concrete_run_poisoned(body, case, values, options=None, reverse_ties: bool = False, narrow: bool = False) -> List[Issue]:
+    import numpoly
+    from . import structures as _S
+
+    if narrow:
+        _S.NARROW = True
+        try:
+            return concrete_run_poisoned(body, case, values, options, reverse_ties)
+        finally:
+            _S.NARROW = False
     _poison_install()
     if reverse_ties:
         from . import stubs
@@ -512,6 +539,8 @@ def concrete_run_poisoned(body, case, values, options=None, reverse_ties: bool =
                 numpoly.set_options(**options)
             try:
                 body(ctx)
+            except _S.Unrepresentable:
+                return []  # this valuation has no exact native form under the case's dtypes: no native run
             except Exception as e:
                 ctx.fail("harness-exception", "%s: %s" % (type(e).__name__, str(e)[:200]))
     finally:
@@ -577,31 +606,100 @@ def _run_one(args):
     return rep
 
 
+def _worker_main(conn, modname: str):
+    """Worker process of the supervised pool: cases come in over the pipe, reports go back; chunks keep the pipe traffic low."""
+    _worker_init()
+    while True:
+        try:
+            msg = conn.recv()
+        except (EOFError, OSError):
+            return
+        if msg is None:
+            return
+        conn.send(_run_one((modname, msg)))
+
+
+def _hard_limit(case: Dict) -> float:
+    """Wall-clock limit after which a worker is presumed hung inside the solver (z3 was seen to ignore both its timeout and an
+    interrupt for minutes): exploration budget of the case + room for the last query and the in-process native runs."""
+    if not (case.get("limits") or {}).get("time"):
+        return 900.0  # cases that manage their own solver (kernel / sorting / index obligations) carry their own time-outs
+    budget = float(case["limits"]["time"])
+    return budget + 40.0  # one overrunning query (10 s) + in-process native runs; subprocess replays happen in the parent
+
+
 def run_pool(modname: str, cases: List[Dict], workers: int = 16, deadline_s: Optional[float] = None) -> List[Dict]:
+    """Supervised process pool: one case at a time per worker; a worker that overruns the case's hard wall-clock limit is
+    terminated and replaced, its case is reported inconclusive (never as held)."""
+    from multiprocessing.connection import wait as _wait
+
     if not cases:
         return []
     reports: List[Dict] = []
     ctx = mp.get_context("spawn")
     t_end = None if deadline_s is None else time.time() + deadline_s
-    with cf.ProcessPoolExecutor(max_workers=min(workers, max(1, len(cases))), mp_context=ctx, initializer=_worker_init) as ex:
-        futs = {ex.submit(_run_one, (modname, c)): c for c in cases}
-        pending = set(futs)
-        while pending:
-            timeout = None if t_end is None else max(0.1, t_end - time.time())
-            done, pending = cf.wait(pending, timeout=timeout, return_when=cf.FIRST_COMPLETED)
-            for f in done:
-                try:
-                    reports.append(f.result())
-                except BaseException as e:  # noqa
-                    reports.append({"case": futs[f], "harness_error": "worker died: %r" % (e,), "paths": 0})
-            if t_end is not None and time.time() > t_end and pending:
-                for f in pending:
-                    f.cancel()
-                    reports.append({"case": futs[f], "skipped": "check deadline", "paths": 0})
-                # cannot kill running workers politely; shut down hard
-                for p in list(ex._processes.values()):
-                    p.terminate()
+    todo = list(reversed(cases))
+    slots: List[Dict[str, Any]] = []
+
+    def spawn():
+        parent, child = ctx.Pipe()
+        proc = ctx.Process(target=_worker_main, args=(child, modname), daemon=True)
+        proc.start()
+        child.close()
+        return {"proc": proc, "conn": parent, "case": None, "t0": 0.0}
+
+    def feed(sl):
+        if todo:
+            sl["case"] = todo.pop()
+            sl["t0"] = time.time()
+            sl["conn"].send(sl["case"])
+        else:
+            sl["case"] = None
+
+    for _ in range(min(workers, max(1, len(cases)))):
+        sl = spawn()
+        slots.append(sl)
+        feed(sl)
+    try:
+        while any(sl["case"] is not None for sl in slots):
+            busy = [sl for sl in slots if sl["case"] is not None]
+            ready = _wait([sl["conn"] for sl in busy], timeout=1.0)
+            now = time.time()
+            for sl in busy:
+                if sl["conn"] in ready:
+                    try:
+                        reports.append(sl["conn"].recv())
+                    except (EOFError, OSError) as e:
+                        reports.append({"case": sl["case"], "harness_error": "worker died: %r" % (e,), "paths": 0})
+                        sl["proc"].terminate()
+                        sl.update(spawn())
+                    feed(sl)
+                elif now - sl["t0"] > _hard_limit(sl["case"]):
+                    sl["proc"].terminate()
+                    reports.append({"case": sl["case"], "paths": 0, "exhausted": False, "n_inconclusive": 1, "wall_s": now - sl["t0"],
+                                    "inconclusive": ["no answer within the hard wall-clock limit of %.0f s (solver did not return); worker replaced" % _hard_limit(sl["case"])]})
+                    sl.update(spawn())
+                    feed(sl)
+            if t_end is not None and now > t_end:
+                for sl in slots:
+                    if sl["case"] is not None:
+                        reports.append({"case": sl["case"], "skipped": "check deadline", "paths": 0})
+                        sl["case"] = None
+                for c in todo:
+                    reports.append({"case": c, "skipped": "check deadline", "paths": 0})
+                todo.clear()
                 break
+    finally:
+        for sl in slots:
+            try:
+                if sl["proc"].is_alive() and sl["case"] is None:
+                    sl["conn"].send(None)
+            except Exception:
+                pass
+        for sl in slots:
+            sl["proc"].join(timeout=0.5)
+            if sl["proc"].is_alive():
+                sl["proc"].terminate()
     return reports
 
 
